@@ -86,9 +86,10 @@ theorem lu_roundtrip (ext : DirectExt R F) (cx : MassCtx R) (A : Op R) (f : GF R
     GF.projections, if_true, DirectExt.run, hx]
 
 /-- `lu(A, A*fs)` for a blocked operator with arbitrary block sizes; in particular the range and dual spaces of
-a block row may have different dof counts.  `W` is the dense weak form (`Σ dual dofs` rows). -/
+a block row may have different dof counts.  `W` is the dense weak form (`Σ dual dofs` rows); function `j` of `fs`
+lives in `domains[j]` (otherwise `A*fs` is rejected). -/
 theorem lu_roundtrip_blocked (ext : DirectExt R F) (cx : MassCtx R) (A : BlockOp R) (fs : List (GF R))
-    (hn : fs.length = A.domains.length)
+    (hdom : fs.map GF.space = A.domains)
     (hr : A.ranges.length = A.duals.length)
     (hlen : fs.map (fun f => (f.coefficients cx).length) = A.domains.map Space.ndof)
     (hrows : A.W.length = (A.duals.map Space.ndof).sum)
@@ -99,6 +100,7 @@ theorem lu_roundtrip_blocked (ext : DirectExt R F) (cx : MassCtx R) (A : BlockOp
       matvec A.W (ext.solve A.W (matvec A.W x)) = matvec A.W x) :
     (A.mulGFs cx fs).map (fun b => luBlocked ext cx A b none)
       = .ok (List.zipWith (fun s f => GF.ofCoefficients s s (f.coefficients cx)) A.domains fs) := by
+  have hn : fs.length = A.domains.length := by rw [← hdom, List.length_map]
   have hc : (coefficientsFromList cx fs).length = (A.domains.map Space.ndof).sum := by
     unfold coefficientsFromList
     rw [length_pack, List.map_map, ← hlen]
@@ -112,7 +114,7 @@ theorem lu_roundtrip_blocked (ext : DirectExt R F) (cx : MassCtx R) (A : BlockOp
     pack_splitBy _ _ (by rw [length_matvec, hrows]; exact Nat.le_refl _)
   have hcoef : (fs.map (GF.coefficients cx)).map List.length = A.domains.map Space.ndof := by
     rw [List.map_map]; exact hlen
-  simp only [BlockOp.mulGFs, hn, ne_eq, not_true_eq_false, if_false, gridFunctionListFromProjections, hr,
+  simp only [BlockOp.mulGFs, hn, hdom, ne_eq, not_true_eq_false, if_false, gridFunctionListFromProjections, hr,
     Except.map, luBlocked, luCallBlocked, projectionsFromList, DirectExt.run]
   rw [projections_of_ofProjections cx _ _ _ hr hsplit, hpack, hx]
   simp only [gridFunctionListFromCoefficients, coefficientsFromList]
